@@ -113,6 +113,8 @@ func Run(c *core.Ctx) {
 		lap("ex-proc")
 		runRandom(c)
 		lap("random")
+		runConc(c)
+		lap("conc")
 	}
 	if part == "" || part == "hazard" {
 		runHazard(c)
